@@ -135,7 +135,8 @@ INVERT_FIXED = [[], ["C"], ["C", "E"], ["E", "C"], ["C", "E", "G"], ["C", "C"], 
 
 
 def sub_invert(ctx, shard, n):
-    ctx.enumerate("invert", check_invert, INVERT_FIXED)
+    if shard == 0:
+        ctx.enumerate("invert", check_invert, INVERT_FIXED)
     name = st.sampled_from(T.unmixed_names(2))
     leaf = name | st.integers(-5, 200) | st.none() | st.text(max_size=4) | st.booleans()
     element = leaf | st.lists(name, max_size=3) | st.lists(leaf, max_size=3)
